@@ -56,6 +56,7 @@ type Job struct {
 	Shards  int      // 0: all cores; 1: single process
 	Inst    bool     // needs the instrumented (overlay) build
 	Race    bool     // needs the -race build
+	CLI     bool     // needs the freshly built cmd/gmars
 	NoProps bool
 }
 
@@ -120,7 +121,7 @@ type builds struct {
 	notes []string
 }
 
-func buildHarness(dir string, needInst, needRace bool) (*builds, error) {
+func buildHarness(dir string, needInst, needRace, needCLI bool) (*builds, error) {
 	b := &builds{dir: dir}
 	b.plain = filepath.Join(dir, "vh")
 	if out, err := runCmd(mcDir, goEnv(), "go", "build", "-o", b.plain, "./cmd/vh"); err != nil {
@@ -148,6 +149,29 @@ func buildHarness(dir string, needInst, needRace bool) (*builds, error) {
 		b.inst = filepath.Join(dir, "vh-inst")
 		if out, err := runCmd(mcDir, goEnv(), "go", "build", "-tags", "verifinst", "-overlay", filepath.Join(ov, "overlay.json"), "-o", b.inst, "./cmd/vh"); err != nil {
 			return nil, fmt.Errorf("building instrumented harness failed:\n%s", out)
+		}
+	}
+	if needCLI {
+		tenv := append(os.Environ(), "GOPROXY=off", "GOSUMDB=off", "GOTOOLCHAIN=local", "GOFLAGS=")
+		if out, err := runCmd("/repo", tenv, "go", "build", "-o", filepath.Join(dir, "gmars"), "./cmd/gmars"); err != nil {
+			return nil, fmt.Errorf("building cmd/gmars failed:\n%s", out)
+		}
+		// the same command with math/rand replaced by a source whose answers the harness forces
+		mainSrc, err := os.ReadFile("/repo/cmd/gmars/main.go")
+		shimSrc, err2 := os.ReadFile(filepath.Join(mcDir, "shim", "verifrand.go.txt"))
+		if err == nil && err2 == nil && strings.Count(string(mainSrc), "\"math/rand\"") == 1 {
+			od := filepath.Join(dir, "cliov")
+			os.MkdirAll(od, 0o755)
+			os.WriteFile(filepath.Join(od, "main.go"), []byte(strings.Replace(string(mainSrc), "\"math/rand\"", "rand \"github.com/bobertlo/gmars/verifrand\"", 1)), 0o644)
+			os.WriteFile(filepath.Join(od, "rand.go"), shimSrc, 0o644)
+			ovj, _ := json.Marshal(map[string]any{"Replace": map[string]string{"/repo/cmd/gmars/main.go": filepath.Join(od, "main.go"), "/repo/verifrand/rand.go": filepath.Join(od, "rand.go")}})
+			os.WriteFile(filepath.Join(od, "overlay.json"), ovj, 0o644)
+			if out, err := runCmd("/repo", tenv, "go", "build", "-overlay", filepath.Join(od, "overlay.json"), "-o", filepath.Join(dir, "gmars-rand"), "./cmd/gmars"); err != nil {
+				b.notes = append(b.notes, "the random-source overlay did not build: "+trunc(out, 300))
+				os.Remove(filepath.Join(dir, "gmars-rand"))
+			}
+		} else {
+			b.notes = append(b.notes, "cmd/gmars/main.go does not import math/rand exactly once: random placement cannot be forced")
 		}
 	}
 	if needRace {
@@ -221,15 +245,17 @@ func check(prop, tier string) int {
 		jobs = plan.Thorough
 		capS = plan.ThoroughCap
 	}
-	needInst, needRace := false, false
+	needInst, needRace, needCLI := false, false, false
 	for _, j := range jobs {
 		needInst = needInst || j.Inst
 		needRace = needRace || j.Race
+		needCLI = needCLI || j.CLI
 	}
 	work := filepath.Join(verifDir, ".work", fmt.Sprintf("%s-%s-%d", prop, tier, os.Getpid()))
 	os.MkdirAll(work, 0o755)
 	defer os.RemoveAll(work)
-	b, err := buildHarness(work, needInst, needRace)
+	b, err := buildHarness(work, needInst, needRace, needCLI)
+	os.Setenv("VH_CLI_DIR", work)
 	if err != nil {
 		fatal("%v", err)
 	}
@@ -501,7 +527,8 @@ func replay(path string) int {
 	work := filepath.Join(verifDir, ".work", fmt.Sprintf("replay-%d", os.Getpid()))
 	os.MkdirAll(work, 0o755)
 	defer os.RemoveAll(work)
-	bl, err := buildHarness(work, rf.Inst, rf.Race)
+	bl, err := buildHarness(work, rf.Inst, rf.Race, rf.Engine == "e8")
+	os.Setenv("VH_CLI_DIR", work)
 	if err != nil {
 		fatal("%v", err)
 	}
